@@ -270,6 +270,21 @@ pub fn build(seed: u64, idx: usize) -> CorpusItem {
     build_spec(idx, spec(seed, idx))
 }
 
+/// Number of corpus items the library could not even encode / serialise (panic or error while the corpus
+/// was being built). Such an item cannot serve as a clean reference; it is skipped and counted.
+pub static UNBUILDABLE: std::sync::atomic::AtomicU64 = std::sync::atomic::AtomicU64::new(0);
+
+/// `build`, but a library that panics or fails while the item is made yields `None` instead of ending the run.
+pub fn try_build(seed: u64, idx: usize) -> Option<CorpusItem> {
+    match crate::pan::catch(|| build(seed, idx)) {
+        Ok(item) => Some(item),
+        Err(_) => {
+            UNBUILDABLE.fetch_add(1, std::sync::atomic::Ordering::Relaxed);
+            None
+        }
+    }
+}
+
 /// Which subframe kinds / channel assignments an item contains (coverage probes).
 pub fn kinds(item: &CorpusItem, hist: &mut BTreeMap<String, u64>) {
     for n in 0..item.stream.frame_count() {
